@@ -118,6 +118,9 @@ type PosArg struct {
 	PtrSlice bool
 	// NamedSlice: a rest positional declared with the named slice type StrList instead of []string
 	NamedSlice bool
+	// UnmSlice (with NamedSlice): the named slice type is AccList, which also implements Unmarshaler (each token is
+	// handed to UnmarshalFlag, which appends it): still a list that takes every remaining argument
+	UnmSlice bool
 	// ExtraLong: a long: tag on the positional field (it must not turn the field into an option)
 	ExtraLong string
 	idx       int
@@ -127,6 +130,9 @@ type PosArg struct {
 func (a *PosArg) GoType() reflect.Type {
 	if a.PtrSlice {
 		return reflect.PtrTo(reflect.TypeOf([]string(nil)))
+	}
+	if a.NamedSlice && a.UnmSlice {
+		return reflect.TypeOf(AccList(nil))
 	}
 	if a.NamedSlice {
 		return reflect.TypeOf(StrList(nil))
@@ -1065,6 +1071,9 @@ func (d *Decl) Describe() interface{} {
 				}
 				if a.NamedSlice {
 					ts = "StrList (named []string)"
+				}
+				if a.NamedSlice && a.UnmSlice {
+					ts = "AccList (named []string whose UnmarshalFlag appends the argument)"
 				}
 				desc := a.Field + " " + ts + " `" + a.Tag() + "`"
 				if a.ReqViaAPI && a.Req != "" {
